@@ -63,9 +63,22 @@ type Gen struct {
 	// (so that more than 100 of them fit: the default page size of the SDK's listings)
 	burstBidder int
 	burstTiny   bool
+	// burstGoal: the burst ends when the auction holds this many bids (burst is the step budget)
+	burstGoal int
+	// burstQty: quantity of each bid of a huge burst on a fixed-price auction (about 1/105 of what
+	// the bidder's allowance or the remainder leave, so that the burst ends by crossing that limit)
+	burstQty *big.Int
 	// flood: number of auctions still to be created in a row (more than 100 auctions alive at once)
 	flood        int
 	floodPending bool
+	// tails: short follow-ups that operate on what a flood / huge burst has just built
+	floodTail  int   // blocks and cancellations of the auctions created last
+	capTail    int   // after a huge burst on a fixed-price auction: exhaust an allowance, then one more coin
+	capAuction uint64
+	capBidder  int
+	newTail    int // after >100 bids of one bidder: a new fixed-price auction in which that bidder has a small allowance
+	newBidder  int
+	newAuction uint64
 	// maxAuctions: per-history limit (W.MaxAuctions, or 12 for the occasional crowded history)
 	maxAuctions int
 	W            Weights
@@ -337,7 +350,9 @@ func Instants(s *Snap, now time.Time) []time.Time {
 // Next draws the next operation of a history given the current observed state.
 // Busy reports whether the generator is in the middle of a burst or flood (those operations do not
 // count against the length drawn for the history).
-func (g *Gen) Busy() bool { return g.burst > 0 || g.flood > 0 }
+func (g *Gen) Busy() bool {
+	return g.burst > 0 || g.flood > 0 || g.floodTail > 0 || g.capTail > 0 || g.newTail > 0
+}
 
 // maxWire is the largest amount a message can carry (math.Int is limited to 256 bits; one bit is
 // left for sums).
@@ -375,9 +390,22 @@ func (g *Gen) Next(t *rapid.T, w *World, s *Snap) Op {
 func (g *Gen) next(t *rapid.T, w *World, s *Snap) Op {
 	if g.burst > 0 {
 		g.burst--
-		if a := s.Auction(g.burstAuction); a != nil && a.Status == types.AuctionStatusStarted {
+		if a := s.Auction(g.burstAuction); a != nil && a.Status == types.AuctionStatusStarted && len(s.BidsOf(a.ID)) >= g.burstGoal {
+			g.burst = 0
+			if g.burstTiny {
+				if !a.IsBatch() {
+					if allowed := s.AllowedOf(a.ID); len(allowed) > 0 {
+						g.capTail, g.capAuction = 2, a.ID
+						g.capBidder = AddrIndex(pick(t, "cap-tail-bidder", allowed).Bidder)
+					}
+				}
+				if g.burstBidder >= 0 {
+					g.newTail, g.newBidder = 4, g.burstBidder
+				}
+			}
+		} else if a != nil && a.Status == types.AuctionStatusStarted {
 			// the crowd: further accounts are allow-listed as the burst goes on
-			if n := len(s.AllowedOf(a.ID)); n < 14 && g.burstBidder < 0 && pct(t, 40, "burst-new-bidder") {
+			if n := len(s.AllowedOf(a.ID)); n < 30 && g.burstBidder < 0 && pct(t, 40, "burst-new-bidder") {
 				idx := NumAccounts + uni(t, "burst-crowd", NumCrowd)
 				if s.Cap(a.ID, Addrs[idx].String()) == nil {
 					max := floorDiv(a.SellAmt, bi(int64(1+uni(t, "burst-cap-div", 6))))
@@ -391,8 +419,78 @@ func (g *Gen) next(t *rapid.T, w *World, s *Snap) Op {
 		}
 		g.burst = 0
 	}
+	if g.capTail > 0 {
+		g.capTail--
+		if a := s.Auction(g.capAuction); a != nil && a.Status == types.AuctionStatusStarted && g.capBidder >= 0 {
+			bidder := Addrs[g.capBidder].String()
+			if c := s.Cap(a.ID, bidder); c != nil {
+				left := bcopy(c)
+				for _, b := range s.BidsOf(a.ID) {
+					if b.Bidder == bidder {
+						left.Sub(left, b.QtyAt(a.PayDenom, b.PriceM))
+					}
+				}
+				qty := bmin(left, a.Remaining)
+				if g.capTail == 0 || qty.Sign() <= 0 {
+					qty = bi(1) // the allowance is used up: this one must be rejected
+				}
+				g.label("history:allowance-exhausted-after-a-huge-burst")
+				return Op{Kind: OpPlaceBid, Auction: a.ID, Signer: g.capBidder, BidType: int32(types.BidTypeFixedPrice), Price: mstr(a.StartPriceM), CoinDenom: a.SellDenom, CoinAmount: qty.String()}
+			}
+		}
+		g.capTail = 0
+	}
+	if g.newTail > 0 {
+		g.newTail--
+		switch g.newTail {
+		case 3: // a fixed-price auction that is open at once
+			g.newAuction = s.AuctionSeq
+			g.label("history:new-auction-for-a-bidder-with->100-bids")
+			return Op{Kind: OpCreateFixed, Signer: uni(t, "new-tail-auctioneer", 3), StartPrice: "1.000000000000000000", SellDenom: pick(t, "new-tail-sell", SellDenoms), SellAmount: "1000",
+				PayDenom: pick(t, "new-tail-pay", PayDenoms), Start: w.Now.Add(-time.Hour), End: w.Now.Add(6 * time.Hour)}
+		case 2:
+			if a := s.Auction(g.newAuction); a != nil && !a.IsBatch() {
+				return Op{Kind: OpAddAllowed, Auction: a.ID, Bidder: g.newBidder, MaxBid: "10"}
+			}
+			g.newTail = 0
+		case 1, 0: // 6 + 6 > 10: the second one must be rejected
+			if a := s.Auction(g.newAuction); a != nil && a.Status == types.AuctionStatusStarted {
+				return Op{Kind: OpPlaceBid, Auction: a.ID, Signer: g.newBidder, BidType: int32(types.BidTypeFixedPrice), Price: mstr(a.StartPriceM), CoinDenom: a.SellDenom, CoinAmount: "6"}
+			}
+			g.newTail = 0
+		}
+	}
+	if g.floodTail > 0 {
+		g.floodTail--
+		n := len(s.Auctions)
+		switch {
+		case g.floodTail == 0 && g.W.Reimport > 0:
+			g.label("history:genesis-reimport")
+			return Op{Kind: OpReimport} // with more than 100 records of several kinds in the store
+		case g.floodTail%3 == 2 || n == 0:
+			return g.genBlock(t, w, s)
+		case g.floodTail%3 == 1:
+			// one of the auctions created last: cancelled by its auctioneer (accepted only while waiting)
+			a := s.Auctions[n-1-uni(t, "flood-tail-auction", minInt(n, 20))]
+			g.label("history:cancel-of-a-late-auction-after-a-flood")
+			return Op{Kind: OpCancel, Auction: a.ID, Signer: AddrIndex(a.Auctioneer)}
+		default:
+			// a bid on one of the auctions created last, by a bidder allow-listed there
+			for k := 0; k < minInt(n, 40); k++ {
+				a := s.Auctions[n-1-k]
+				if al := s.AllowedOf(a.ID); a.Status == types.AuctionStatusStarted && len(al) > 0 {
+					g.label("history:bid-on-a-late-auction-after-a-flood")
+					return g.genPlaceBidOn(t, w, s, a)
+				}
+			}
+			return g.genBlock(t, w, s)
+		}
+	}
 	if g.flood > 0 {
 		g.flood--
+		if g.flood == 0 {
+			g.floodTail = 19
+		}
 		kind := OpCreateFixed
 		if pct(t, 50, "flood-batch") {
 			kind = OpCreateBatch
@@ -406,23 +504,60 @@ func (g *Gen) next(t *rapid.T, w *World, s *Snap) Op {
 	}
 	if g.floodPending && pct(t, 10, "flood-start") {
 		g.floodPending = false
-		g.flood = 2 * (101 + uni(t, "flood-len", 12))
+		g.flood = 2 * (115 + uni(t, "flood-len", 15))
 		g.maxAuctions = 140
 		g.label("history:auction-flood(>100 auctions, >100 allow-list entries)")
 	}
-	if open := auctionsWith(s, func(a *Auc) bool { return a.Status == types.AuctionStatusStarted }); len(open) > 0 && g.W.PlaceBid > 0 && pct(t, 1, "bid-burst") {
+	if open := auctionsWith(s, func(a *Auc) bool { return a.Status == types.AuctionStatusStarted }); len(open) > 0 && g.W.PlaceBid > 0 && pct(t, 2, "bid-burst") {
 		a := pick(t, "burst-auction", open)
-		g.burst, g.burstAuction = 13+uni(t, "burst-len", 18), a.ID
+		g.burstGoal = len(s.BidsOf(a.ID)) + 13 + uni(t, "burst-len", 18)
+		g.burst, g.burstAuction = 3*g.burstGoal, a.ID
 		g.burstBidder, g.burstTiny = -1, false
 		g.label("history:bid-burst(13-30 bids on one auction)")
-		if pct(t, 20, "burst-huge") {
-			// more than 100 bids: the default page size of the SDK's paginated reads
-			g.burst = 101 + uni(t, "burst-len-huge", 25)
+		// more than 100 bids (the default page size of the SDK's paginated reads): needs an auction
+		// with room for that many one-coin bids
+		roomy := auctionsWith(s, func(a *Auc) bool {
+			return a.Status == types.AuctionStatusStarted && (a.IsBatch() || a.Remaining.Cmp(bi(150)) >= 0)
+		})
+		if len(roomy) > 0 && pct(t, 25, "burst-huge") {
+			a = pick(t, "burst-auction-huge", roomy)
+			if fixedRoomy := auctionsWith(s, func(a *Auc) bool {
+				return a.Status == types.AuctionStatusStarted && !a.IsBatch() && a.Remaining.Cmp(bi(150)) >= 0
+			}); len(fixedRoomy) > 0 && pct(t, 60, "burst-huge-fixed") {
+				a = pick(t, "burst-auction-huge-fixed", fixedRoomy)
+			}
+			g.burstAuction = a.ID
+			g.burstGoal = 101 + uni(t, "burst-len-huge", 25)
+			g.burst = 3 * g.burstGoal
 			g.burstTiny = true
 			g.label("history:bid-burst(>100 bids on one auction)")
-			if allowed := s.AllowedOf(a.ID); len(allowed) > 0 && pct(t, 50, "burst-single-bidder") {
-				g.burstBidder = AddrIndex(pick(t, "burst-bidder", allowed).Bidder)
+			var able []int
+			for _, ab := range s.AllowedOf(a.ID) {
+				if i := AddrIndex(ab.Bidder); i >= 0 && (a.IsBatch() || ab.Max.Cmp(bi(150)) >= 0) {
+					able = append(able, i)
+				}
+			}
+			g.burstQty = bi(1)
+			if !a.IsBatch() {
+				g.burstQty = floorDiv(a.Remaining, bi(130))
+			}
+			if len(able) > 0 && pct(t, 50, "burst-single-bidder") {
+				g.burstBidder = pick(t, "burst-bidder", able)
 				g.label("history:bid-burst(>100 bids of one bidder)")
+				if !a.IsBatch() {
+					left := bcopy(s.Cap(a.ID, Addrs[g.burstBidder].String()))
+					for _, b := range s.BidsOf(a.ID) {
+						if b.Bidder == Addrs[g.burstBidder].String() {
+							left.Sub(left, b.QtyAt(a.PayDenom, b.PriceM))
+						}
+					}
+					g.burstQty = floorDiv(bmin(left, a.Remaining), bi(105))
+					g.burstGoal = len(s.BidsOf(a.ID)) + 108 + uni(t, "burst-over", 10) // a few bids past the limit
+					g.burst = g.burstGoal + 40
+				}
+			}
+			if g.burstQty.Sign() <= 0 {
+				g.burstQty = bi(1)
 			}
 		}
 	}
@@ -495,8 +630,13 @@ func (g *Gen) next(t *rapid.T, w *World, s *Snap) Op {
 		return Op{Kind: OpReimport}
 	case OpFaultBlock:
 		o := g.genBlock(t, w, s)
+		// inject the fault into one of the transfers this block really makes (counted by a dry run)
+		m := countBlockTransfers(w, o.Time)
+		if m == 0 {
+			return o
+		}
 		o.Kind = OpFaultBlock
-		o.FailAt = rapid.IntRange(0, 7).Draw(t, "fail-at")
+		o.FailAt = uni(t, "fail-at", m)
 		g.label("history:block-with-injected-bank-fault")
 		return o
 	default:
@@ -1125,7 +1265,7 @@ func (g *Gen) genPlaceBidOn(t *rapid.T, w *World, s *Snap, a *Auc) Op {
 			o.CoinAmount = qty.String()
 		}
 		if g.burst > 0 && g.burstTiny { // one coin at a time, so that the whole burst fits
-			o.CoinDenom, o.CoinAmount = a.SellDenom, "1"
+			o.CoinDenom, o.CoinAmount = a.SellDenom, g.burstQty.String()
 		}
 	} else {
 		// price: min, one of the existing prices (ties), or a fresh one >= min
